@@ -305,3 +305,179 @@ func TestGCAfterDamagedEntries(t *testing.T) {
 		sub.Case(vf.Digest(sub.Seed(i)), true)
 	})
 }
+
+// TestQueuePruningConservation (thorough tier only: the pruning task runs every 15 minutes of real time):
+// a peer that cannot gossip (nobody to gossip to yet) queues its updates; when more than 4096 are
+// queued, the periodic check drops the OLDEST ones beyond that bound and counts them. Nothing may vanish
+// uncounted: queued after + pruned = queued before, and what stays is the bound.
+func TestQueuePruningConservation(t *testing.T) {
+	run := vf.Cur()
+	if run.Quick() {
+		t.Skip("thorough tier only: needs 15 minutes of real time")
+	}
+	sub := run.Sub("queue-pruning-conservation", "thorough tier only: one real cluster peer without members and a real silence store; 4096+k (k in 300..1500) small silence updates are broadcast, so that they queue for gossip; after the 15-minute queue check has run, alertmanager_cluster_messages_queued must read exactly 4096 and alertmanager_cluster_messages_pruned_total exactly k (queued before = queued after + pruned); non-trivial = every case; distinct by (case)", 1)
+	r := sub.Rand(0)
+	k := 300 + r.Intn(1200)
+	reg := prometheus.NewRegistry()
+	p, err := cluster.Create(discard, reg, "127.0.0.1:0", "", nil, false, time.Hour, time.Hour, 5*time.Second, 2*time.Second, 500*time.Millisecond, 200*time.Millisecond, nil, true, "", "prune-a")
+	if err != nil {
+		sub.Inconclusive(err.Error())
+		return
+	}
+	defer p.Leave(100 * time.Millisecond)
+	created := time.Now()
+	s, err := silence.New(silence.Options{Retention: time.Hour, Metrics: reg, EventRecorder: eventrecorder.NopRecorder()})
+	if err != nil {
+		t.Fatal(err)
+	}
+	s.SetBroadcast(p.AddState("sil", s, reg).Broadcast)
+	metric := func(name string) float64 {
+		mfs, _ := reg.Gather()
+		for _, mf := range mfs {
+			if mf.GetName() == name {
+				for _, m := range mf.GetMetric() {
+					if m.Gauge != nil {
+						return m.Gauge.GetValue()
+					}
+					if m.Counter != nil {
+						return m.Counter.GetValue()
+					}
+				}
+			}
+		}
+		return -1
+	}
+	now := time.Now()
+	for i := 0; i < 4096+k; i++ {
+		sil := silh.NewSilence("", [][]model.Matcher{{{Name: "alertname", Op: "=", Value: fmt.Sprintf("A%d", i)}}}, now, now.Add(50*time.Minute), "q")
+		if err := s.Set(context.Background(), sil); err != nil {
+			t.Fatal(err)
+		}
+	}
+	before := metric("alertmanager_cluster_messages_queued")
+	if int(before) != 4096+k {
+		sub.Inconclusive(fmt.Sprintf("%d updates broadcast, %v queued", 4096+k, before))
+		return
+	}
+	time.Sleep(time.Until(created.Add(15*time.Minute + 10*time.Second)))
+	after, pruned := metric("alertmanager_cluster_messages_queued"), metric("alertmanager_cluster_messages_pruned_total")
+	sub.Count("updates_queued_before_the_check", int64(before))
+	sub.Count("updates_queued_after_the_check", int64(after))
+	sub.Count("updates_counted_as_pruned", int64(pruned))
+	if int(after) != 4096 || int(pruned) != k {
+		sub.Violation("queued-updates-vanish-uncounted-at-the-periodic-queue-check", map[string]any{"queued_before": before, "queued_after": after, "counted_as_pruned": pruned, "bound": 4096})
+	}
+	sub.Case(vf.Digest("prune"), true)
+}
+
+// TestEditsEffectiveOnConnectedPeer: "a silence created or expired through any instance's API is eventually
+// effective on every connected instance" - through the real mesh, whatever the size of the update (small ones
+// are gossiped, those above 700 bytes are sent to every peer over the reliable channel), with the periodic
+// full-state exchange out of the picture (1 h).
+func TestEditsEffectiveOnConnectedPeer(t *testing.T) {
+	run := vf.Cur()
+	sub := run.Sub("edits-effective-on-connected-peer", "two real cluster peers joined on loopback (gossip 50 ms, push/pull 1 h), each with a real silence store and silencer; silences with comments of 10 B ... 3 kB (encoded updates on both sides of the 700-byte threshold) are created on one peer, extended in place and expired on the other; each step must be effective on the OTHER peer within 10 s: Mutes for a matching label set true after a creation, the new end visible after an extension, Mutes false after an expiry; a miss is re-run twice and counts only if it misses every time; non-trivial = >=1 update above and >=1 below the threshold; distinct by (seed)", 2)
+	n := run.N(3, 60)
+	vf.Parallel(t, n, 3, func(t *testing.T, i int) {
+		r := sub.Rand(i)
+		var problem map[string]any
+		for attempt := 0; attempt < 3; attempt++ {
+			problem = nil
+			mk := func(name string, join []string) (*cluster.Peer, *silh.Store, error) {
+				reg := prometheus.NewRegistry()
+				p, err := cluster.Create(discard, reg, "127.0.0.1:0", "", join, false, time.Hour, 50*time.Millisecond, 5*time.Second, 2*time.Second, 500*time.Millisecond, 200*time.Millisecond, nil, true, "", name)
+				if err != nil {
+					return nil, nil, err
+				}
+				s, err := silence.New(silence.Options{Retention: time.Hour, Metrics: reg, EventRecorder: eventrecorder.NopRecorder()})
+				if err != nil {
+					return nil, nil, err
+				}
+				s.SetBroadcast(p.AddState("sil", s, reg).Broadcast)
+				if err := p.Join(0, 0); err != nil && len(join) > 0 {
+					return nil, nil, err
+				}
+				return p, &silh.Store{S: s, Silencer: silence.NewSilencer(s, discard, eventrecorder.NopRecorder()), Reg: reg}, nil
+			}
+			peerA, sa, err := mk(fmt.Sprintf("ef-a-%d-%d", i, attempt), nil)
+			if err != nil {
+				sub.Inconclusive(err.Error())
+				return
+			}
+			peerB, sb, err := mk(fmt.Sprintf("ef-b-%d-%d", i, attempt), []string{peerA.Self().Address()})
+			if err != nil {
+				peerA.Leave(100 * time.Millisecond)
+				sub.Inconclusive(err.Error())
+				return
+			}
+			wait := func(cond func() bool) bool {
+				for end := time.Now().Add(10 * time.Second); time.Now().Before(end); time.Sleep(5 * time.Millisecond) {
+					if cond() {
+						return true
+					}
+				}
+				return cond()
+			}
+			if !wait(func() bool { return peerA.ClusterSize() == 2 && peerB.ClusterSize() == 2 }) {
+				peerA.Leave(100 * time.Millisecond)
+				peerB.Leave(100 * time.Millisecond)
+				sub.Inconclusive("cluster did not form")
+				return
+			}
+			sizes := []int{10, 300, 560, 640, 760, 1500, 3000}
+			r.Shuffle(len(sizes), func(a, b int) { sizes[a], sizes[b] = sizes[b], sizes[a] })
+			for k, sz := range sizes {
+				from, to := sa, sb
+				if k%2 == 1 {
+					from, to = sb, sa
+				}
+				now := time.Now()
+				l := model.Labels{"alertname": fmt.Sprintf("E%d", k)}
+				s := silh.NewSilence("", [][]model.Matcher{{{Name: "alertname", Op: "=", Value: l["alertname"]}}}, now, now.Add(30*time.Minute), strings.Repeat("c", sz))
+				if err := from.S.Set(context.Background(), s); err != nil {
+					t.Fatal(err)
+				}
+				step := func(what string, cond func() bool) bool {
+					if wait(cond) {
+						sub.Count("steps_effective_on_the_other_peer", 1)
+						return true
+					}
+					problem = map[string]any{"seed": sub.Seed(i), "step": what, "comment_bytes": sz, "silence": s.Id}
+					return false
+				}
+				if !step("creation", func() bool { m, _ := to.Mutes(l); return m }) {
+					break
+				}
+				// extended in place on the OTHER peer, must become visible where it was created
+				e := proto.Clone(s).(*pb.Silence)
+				e.EndsAt = timestamppb.New(now.Add(47 * time.Minute))
+				if err := to.S.Set(context.Background(), e); err != nil || e.Id != s.Id {
+					problem = map[string]any{"seed": sub.Seed(i), "step": "in-place extension refused or re-created", "err": fmt.Sprint(err)}
+					break
+				}
+				if !step("extension", func() bool {
+					x, err := from.S.QueryOne(context.Background(), silence.QIDs(s.Id))
+					return err == nil && x.EndsAt.AsTime().Equal(e.EndsAt.AsTime())
+				}) {
+					break
+				}
+				if err := from.S.Expire(context.Background(), s.Id); err != nil {
+					t.Fatal(err)
+				}
+				if !step("expiry", func() bool { m, _ := to.Mutes(l); return !m }) {
+					break
+				}
+			}
+			peerA.Leave(100 * time.Millisecond)
+			peerB.Leave(100 * time.Millisecond)
+			if problem == nil {
+				break
+			}
+			sub.Count("re-runs", 1)
+		}
+		if problem != nil {
+			sub.Violation("edit-not-effective-on-a-connected-peer", problem)
+		}
+		sub.Case(vf.Digest(sub.Seed(i)), true)
+	})
+}
